@@ -540,8 +540,11 @@ pub fn install_quiet_panic_hook() {
             "?".to_string()
         };
         LAST_PANIC.with(|p| *p.borrow_mut() = Some(format!("{} @ {}", msg, loc)));
-        if std::env::var("VERIF_SHOW_PANICS").is_ok() {
+        if let Ok(v) = std::env::var("VERIF_SHOW_PANICS") {
             eprintln!("panic: {} @ {}", msg, loc);
+            if v == "2" && loc.starts_with("src/") {
+                eprintln!("{}", std::backtrace::Backtrace::force_capture());
+            }
         }
     }));
 }
